@@ -4,6 +4,7 @@
 Require Extraction.
 Require Import ExtrOcamlBasic.
 From LsmV Require Import Base.Bytes Model.Entry Model.Tree Model.Stream Model.History Model.Cert Model.Marks Model.Range Model.Prefix Model.Version Model.Bounds Model.Fifo.
+From LsmV Require Model.DataBlock Model.Bloom Model.VersionCodec Model.Ints.
 
 Extraction Language OCaml.
 
@@ -18,4 +19,7 @@ Extraction "../ocaml/model.ml"
   sv_range_run sv_range prefix_to_range is_prefix
   optimize_runs with_new_l0_run with_merge with_moved with_dropped version_inv merge_choice_ok move_choice_ok l0_choice_ok
   bounds_contains bounds_is_empty drop_range_choose fifo_choose_full
+  LsmV.Model.DataBlock.encode_block LsmV.Model.DataBlock.decode_all LsmV.Model.DataBlock.point_read LsmV.Model.DataBlock.decode_all_back
+  LsmV.Model.Bloom.bloom_build_opt LsmV.Model.Bloom.bloom_contains_opt LsmV.Model.Bloom.bloom_encode LsmV.Model.Bloom.bloom_decode
+  LsmV.Model.VersionCodec.decode_tables_section LsmV.Model.VersionCodec.decode_blob_files_section LsmV.Model.VersionCodec.decode_gc_section LsmV.Model.VersionCodec.encode_tables_section
   N.add N.mul N.sub N.eqb N.ltb N.leb N.of_nat N.to_nat.
